@@ -869,6 +869,14 @@ where
                 "log_max_height {log_max_height} exceeds base field bit width {max_query_index_bits}"
             )));
         }
+        // The LDE domain of height `2^log_max_height` must be a two-adic subgroup of the base
+        // field: `two_adic_generator` asserts this bound instead of returning an error.
+        if log_max_height > Val::<SC>::TWO_ADICITY {
+            return Err(VerificationError::InvalidProofShape(format!(
+                "log_max_height {log_max_height} exceeds the base field two-adicity {}",
+                Val::<SC>::TWO_ADICITY
+            )));
+        }
 
         let index_bits_per_query: Vec<Vec<Target>> = (0..num_queries)
             .map(|_| challenger.sample_bits(circuit, log_max_height))
@@ -1284,6 +1292,14 @@ where
         if log_max_height > max_query_index_bits {
             return Err(VerificationError::InvalidProofShape(format!(
                 "log_max_height {log_max_height} exceeds base field bit width {max_query_index_bits}"
+            )));
+        }
+        // The LDE domain of height `2^log_max_height` must be a two-adic subgroup of the base
+        // field: `two_adic_generator` asserts this bound instead of returning an error.
+        if log_max_height > Val::<SC>::TWO_ADICITY {
+            return Err(VerificationError::InvalidProofShape(format!(
+                "log_max_height {log_max_height} exceeds the base field two-adicity {}",
+                Val::<SC>::TWO_ADICITY
             )));
         }
 
